@@ -25,6 +25,7 @@ from pyvc.api import (FIN, PathEnd, SFloat, Variable, XDataArray, XDataset, add_
 from pyvc.lib import numpy_ as np
 from pyvc.lib.numpy_ import BOOL, FLOAT64, INT32, INT64, NDArray
 
+from props._contracts import scn_mesh_mask_contract  # noqa: F401,E402
 PROPERTY = 'C08'
 MOD = 'emsarray.masking'
 
@@ -48,6 +49,9 @@ def scenarios(tier):
             out.append({'name': f'mask_grid_data_array[variable{layout}]', 'fn': 'scn_mask_array', 'kwargs': {'layout': layout}})
     for ci, cfg in enumerate(GRID_CONFIGS):
         out.append({'name': f'mask_grid_dataset[{cfg[0]}]', 'fn': 'scn_grid_dataset', 'kwargs': {'ci': ci}})
+    from props._contracts import mesh_mask_contract_scenarios
+    out += mesh_mask_contract_scenarios()        # the mesh clip mask taken as given by the mesh scenarios (verified by C07), re-verified here
+    out.append({'name': 'Convention.clip = apply_clip_mask(make_clip_mask(geometry as given, buffer), work_dir)', 'fn': 'scn_clip_entry', 'kwargs': {}})
     return out
 
 
@@ -483,3 +487,36 @@ def scn_mesh_data(c, edges, fill='int_fill', si=1):
                 s_and(got.is_fin(), s_eq(got.val, sels['node'][1].rank(enode) + (1 - si))))
         c.check('edge_node: saved as an integer table', getattr(vo.encoding.get('dtype'), 'kind', None) == 'i')
     return out
+
+
+def scn_clip_entry(c):
+    """Convention.clip (the one-step entry point behind dataset.ems.clip and the command line): the clip region reaches make_clip_mask as it was
+    given -- any geometry type, not repaired, not reduced to its areal part --, with the buffer, and the mask it returns is applied as it is."""
+    from pyvc.contract import Contract
+    from pyvc.core import SVal
+    from pyvc.lib.stdlib import OpaqueValue, PathModel
+    it = new_interp()
+    ds, conv = inputs.make_convention(it, c, 'CFGrid1D')
+    calls = []
+    mask_tok, out_tok = OpaqueValue('mask'), OpaqueValue('clipped dataset')
+
+    def make(it_, a):
+        calls.append(('make', a.get('clip_geometry'), a.get('buffer')))
+        return mask_tok
+
+    def apply_(it_, a):
+        calls.append(('apply', a.get('clip_mask'), a.get('work_dir')))
+        return out_tok
+    for mod, q, post in (('emsarray.conventions.grid', 'CFGrid.make_clip_mask', make), ('emsarray.conventions.grid', 'CFGrid.apply_clip_mask', apply_)):
+        it.contracts[(mod, q)] = Contract(mod, q, post=post, verified_by='C07 (make_clip_mask) / C08 (apply_clip_mask)')
+    geom = SVal(z3.FreshConst(core.GeomSort, 'region'))
+    work = PathModel(OpaqueValue('work_dir'))
+    buf = c.fresh_int('buffer')
+    out = expect_ok(c, 'clip returns', lambda: method(it, conv, 'clip', geom, work, buffer=buf))
+    c.check('one mask is made and then applied', [x[0] for x in calls] == ['make', 'apply'])
+    if [x[0] for x in calls] != ['make', 'apply']:
+        raise PathEnd()
+    c.check('the clip region is handed to make_clip_mask as it was given (lines, points and collections included; nothing repaired or dropped), with the buffer',
+            calls[0][1] is geom and calls[0][2] is buf)
+    c.check('the mask just made is applied, with the work directory given', calls[1][1] is mask_tok and calls[1][2] is work)
+    c.check('the clipped dataset is returned as it is', out is out_tok)
